@@ -20,6 +20,12 @@ Deciding monitor M (boundary oracle = the packing model):
   control.tar[.ext] AND exactly one distinct data.tar[.ext]`` decides whether
   ``DebFile(...)`` must succeed (and then serve the standard control/data
   content) or must raise ``DebError`` (nothing else).
+* line-boundary look-alikes (``brk`` class): a share of the packages carries
+  control values with VT FF FS GS RS NEL U+2028 U+2029 in the MIDDLE of a value
+  line (first line or continuation line).  The control member is bytes and the
+  format knows LF only, so the character is ordinary content: ``debcontrol()``
+  must give the packed value back verbatim and ``control.get_content('control')``
+  must give the packed bytes / the packed text (``encoding='utf-8'``).
 """
 import bz2
 import gzip
@@ -46,13 +52,25 @@ RULE = ('Packages are generated from a seeded description (control fields incl. 
         'mode).  A package case is non-trivial when it has >= 1 data file and >= 1 maintainer script.  Defective / '
         'acceptable member sets are enumerated (all name sequences of length <= 3 over the 11 part names; every '
         'set with <= 2 control and <= 2 data candidates in all orders) plus seeded larger multisets with duplicates '
-        'and "_" distractors; they are counted by monitor M.accept, not as non-trivial cases.')
+        'and "_" distractors; they are counted by monitor M.accept, not as non-trivial cases.  Line-boundary '
+        'look-alike class (counters brk:*, monitors M.brk.*): ~18% of the packages get 1..3 of the characters VT '
+        'FF FS GS RS NEL U+2028 U+2029 (str.splitlines() boundaries that bytes.splitlines() and deb822 do not know) '
+        'inserted in the middle of control value lines - first line of single- and multi-line values and '
+        'continuation lines incl. the last line of a control file without final newline - each directly followed '
+        'by a blank or a tab; such packages are judged like any other (debcontrol() == packed fields, '
+        'control.get_content as bytes and as utf-8 text == packed control file; the text form is asked of every '
+        'package under the three spellings).  A further ~4% carry the character in a TIGHT placement (next '
+        'character not a blank); for those the unchanged tree raises ValueError from debcontrol() and that outcome is '
+        'tolerated and counted (brk:tight:*), any value that IS returned must still be the packed one.')
 ASSUMPTIONS = [
     'vp.models.arwriter writes a well-formed ar archive (checked against `ar t` / dpkg-deb in the thorough tier when installed)',
     'stdlib tarfile/gzip/bz2/lzma produce valid tarballs; tar members are written with the ./ prefix (dpkg convention, the form the reader documents)',
     'a repeated identical part name is one candidate (never a reason to demand rejection); for archives with repeated members whose distinct set is acceptable either acceptance (then the content must be served) or DebError is tolerated',
     'members whose name starts with "_" are never candidates and never make a package unacceptable (dpkg ignores them)',
-    'control values stay inside the unambiguous deb822 subset (no trailing blanks, continuation lines start with one blank, no CR/VT/FF); md5sums names do not start with whitespace',
+    'control values stay inside the unambiguous deb822 subset (no trailing blanks, continuation lines start with a blank or tab, no CR); md5sums names do not start with whitespace',
+    'VT FF FS GS RS NEL U+2028 U+2029 occur in control values only strictly inside a value line (a non-blank character somewhere before and after it on the same line, never first or last character of the line body): at the edges the reader strips them like blanks, which the statement does not decide',
+    'such a character is JUDGED only when the next character is a blank or a tab - that is what the unchanged tree returns verbatim (confirmed for all 8 characters, first/continuation/last-unterminated line, one or several per line).  When the next character is not a blank (also two such characters in a row) the unchanged tree raises ValueError from Deb822.validate_input (its own str.splitlines() check) out of debcontrol(): tolerated (counted brk:tight:debcontrol-raised-ValueError), never demanded; a value that is returned instead must equal the packed one; control.get_content (bytes and text) is demanded for both placements',
+    'control.get_content(name, encoding="utf-8") is compared with the utf-8 decoding of the packed control file; valid because no CR is generated in control files (text mode translates CR/CRLF)',
     'non-ASCII file names are generated only when tarfile.ENCODING and the filesystem encoding are utf-8',
     'domain excludes truncated/corrupt ar or tar bytes: "structurally defective" = the member-name set only',
 ]
@@ -77,18 +95,36 @@ MUST_REACH = ['debian.debfile:DebFile.__init__', 'debian.debfile:DebPart.tgz', '
 PKGS = {'quick': 2000, 'thorough': 120000}          # TOTAL package cases per tier
 RANDOM_SETS = {'quick': 2000, 'thorough': 200000}   # TOTAL seeded larger member multisets per tier
 
-FLOORS = {   # ~50% of what a run on the unchanged tree measures (seed 0)
+FLOORS = {   # ~50% of what a run on the unchanged tree measures (quick: min over seeds 0-3; thorough: seed 0)
     'quick': {'nontrivial': 800,
-              'monitors': {'M.pkg': 1000, 'M.query': 30000, 'M.accept': 10000, 'M.reject': 9000, 'M.accepted-served': 400},
+              'monitors': {'M.pkg': 1000, 'M.query': 35000, 'M.accept': 10000, 'M.reject': 9000, 'M.accepted-served': 400,
+                           'M.brk.fields': 200, 'M.brk.bytes': 600, 'M.brk.text': 600},
               'counters': {'set:sibling-decides:plain-first': 300, 'set:sibling-decides:compressed-first': 300,
                            'name:leading-dot': 900, 'name:leading-dot-first-component': 400, 'name:space': 900,
-                           'name:subdir': 2000, 'open:filename': 600, 'ar-style:gnu': 3000}},
+                           'name:subdir': 2000, 'open:filename': 600, 'ar-style:gnu': 3000,
+                           # line-boundary look-alike class (workload-only counters: they do not depend on what
+                           # the library answers, so a repaired tight placement can never make a run inconclusive)
+                           'brk:pkg:judged': 180, 'brk:pkg:tight': 35, 'brk:place:then-blank': 350,
+                           'brk:line:single-line': 170, 'brk:line:first-of-multi-line': 40,
+                           'brk:line:continuation': 180, 'brk:line:last-without-final-newline': 10,
+                           'brk:char:VT': 40, 'brk:char:FF': 40, 'brk:char:FS': 40, 'brk:char:GS': 40,
+                           'brk:char:RS': 40, 'brk:char:NEL': 40, 'brk:char:LS': 40, 'brk:char:PS': 40,
+                           'ctltext:get_content': 900, 'ctltext:get_file.read': 900,
+                           'ctltext:get_file.readlines-joined': 900}},
     'thorough': {'nontrivial': 45000,
-                 'monitors': {'M.pkg': 60000, 'M.query': 1900000, 'M.accept': 100000, 'M.reject': 70000,
-                              'M.accepted-served': 35000},
+                 'monitors': {'M.pkg': 60000, 'M.query': 2100000, 'M.accept': 100000, 'M.reject': 70000,
+                              'M.accepted-served': 35000,
+                              'M.brk.fields': 13000, 'M.brk.bytes': 39000, 'M.brk.text': 39000},
                  'counters': {'set:sibling-decides:plain-first': 7000, 'set:sibling-decides:compressed-first': 7000,
                               'name:leading-dot': 60000, 'name:leading-dot-first-component': 30000, 'name:space': 60000,
-                              'name:subdir': 130000, 'open:filename': 18000, 'ar-style:gnu': 55000}},
+                              'name:subdir': 130000, 'open:filename': 18000, 'ar-style:gnu': 55000,
+                              'brk:pkg:judged': 10500, 'brk:pkg:tight': 2400, 'brk:place:then-blank': 21500,
+                              'brk:line:single-line': 10500, 'brk:line:first-of-multi-line': 2700,
+                              'brk:line:continuation': 11000, 'brk:line:last-without-final-newline': 700,
+                              'brk:char:VT': 3000, 'brk:char:FF': 3000, 'brk:char:FS': 3000, 'brk:char:GS': 3000,
+                              'brk:char:RS': 3000, 'brk:char:NEL': 3000, 'brk:char:LS': 3000, 'brk:char:PS': 3000,
+                              'ctltext:get_content': 59000, 'ctltext:get_file.read': 59000,
+                              'ctltext:get_file.readlines-joined': 59000}},
 }
 
 COMP = ['', 'gz', 'bz2', 'xz', 'lzma']
@@ -370,6 +406,101 @@ def gen_value(r, multi):
     return first + '\n' + '\n'.join(lines)
 
 
+# --- line-boundary look-alikes: str.splitlines() cuts there, bytes.splitlines() and deb822 do not
+BRK = {'\x0b': 'VT', '\x0c': 'FF', '\x1c': 'FS', '\x1d': 'GS', '\x1e': 'RS', '\x85': 'NEL',
+       '\u2028': 'LS', '\u2029': 'PS'}
+BRK_CHARS = sorted(BRK)
+BLANKS = ' \t'
+
+
+def split_line(line, li):
+    """value line -> (prefix, body): the continuation prefix (leading blanks/tabs) is not part of the body"""
+    if li == 0:
+        return '', line
+    body = line.lstrip(BLANKS)
+    return line[:len(line) - len(body)], body
+
+
+def brk_scan(fields):
+    """-> [(field index, line index, character name, placement)]; placement is 'then-blank' (judged), 'tight'
+    (next character is not a blank: ValueError out of debcontrol() tolerated) or 'edge' (first/last character of
+    the line body: outside the domain).  Computed from the case itself, so a replayed / hand-written case is
+    classified like a generated one."""
+    out = []
+    for fi, (_, v) in enumerate(fields):
+        if not any(c in BRK for c in v):
+            continue
+        for li, line in enumerate(v.split('\n')):
+            prefix, body = split_line(line, li)
+            for p, c in enumerate(body):
+                if c not in BRK:
+                    continue
+                if not body[:p].strip() or not body[p + 1:].strip():
+                    place = 'edge'          # str.strip(): nothing but blanks / look-alikes before or after it
+                elif body[p + 1] in BLANKS:
+                    place = 'then-blank'
+                else:
+                    place = 'tight'
+                out.append((fi, li, BRK[c], place))
+    return out
+
+
+def inject_brk(r, fields, tight=False, prefer_last=False):
+    """Insert 1..3 look-alike characters into value lines of `fields` (in place).  Judged form: the character
+    goes between two body characters (or behind the last one, then a word follows) and is directly followed by
+    a blank or tab.  tight=True: one of the insertions has no blank behind it (or is doubled)."""
+    slots = []
+    for fi, (k, v) in enumerate(fields):
+        if k == 'Package':
+            continue
+        for li, line in enumerate(v.split('\n')):
+            prefix, body = split_line(line, li)
+            if body and body != '.':
+                slots.append((fi, li))
+    if not slots:
+        fields.append(['X-Brk', 'some value'])
+        slots = [(len(fields) - 1, 0)]
+    # prefer one first line and one continuation line when both exist
+    firsts = [s for s in slots if s[1] == 0]
+    conts = [s for s in slots if s[1] > 0]
+    n = r.choice([1, 1, 2, 2, 3])
+    chosen = []
+    for i in range(n):
+        pool = (conts if (i + r.randrange(2)) % 2 else firsts) or slots
+        chosen.append(r.choice(pool))
+    if prefer_last and slots[-1][0] == len(fields) - 1 and slots[-1][1] == fields[-1][1].count('\n') and r.random() < 0.6:
+        chosen[0] = slots[-1]          # the last line of a control file that has no final newline
+    tight_at = r.randrange(n) if tight else -1
+    for i, (fi, li) in enumerate(chosen):
+        lines = fields[fi][1].split('\n')
+        prefix, body = split_line(lines[li], li)
+        c = r.choice(BRK_CHARS)
+        # never directly behind an earlier insertion (that would turn the earlier one into a tight placement)
+        spots = [q for q in range(1, len(body) + 1) if body[q - 1] not in BRK]
+        if not spots:
+            continue
+        p = r.choice(spots)
+        tail = body[p:] or r.choice(['z', 'end', '(x)', '#'])
+        if i == tight_at:
+            k = r.random()
+            if k < 0.5:
+                mid = c                                  # a<c>b
+                tail = tail.lstrip(BLANKS)
+            elif k < 0.75:
+                mid = c + r.choice(BRK_CHARS) + ' '      # two in a row, then a blank
+            else:
+                mid = c + r.choice(BRK_CHARS)            # two in a row, tight
+                tail = tail.lstrip(BLANKS)
+        else:
+            mid = c + r.choice([' ', ' ', ' ', '\t', '  '])
+        head = body[:p]
+        if not head.strip():
+            head = head + 'w'
+        lines[li] = prefix + head + mid + tail
+        fields[fi][1] = '\n'.join(lines)
+    return fields
+
+
 STD_FIELDS = ['Package', 'Version', 'Architecture', 'Maintainer', 'Installed-Size', 'Depends', 'Pre-Depends',
               'Recommends', 'Suggests', 'Conflicts', 'Breaks', 'Replaces', 'Provides', 'Section', 'Priority',
               'Multi-Arch', 'Homepage', 'Built-Using', 'Source', 'Essential', 'Tag', 'Description', 'Conffiles']
@@ -475,6 +606,12 @@ def gen_pkg(r, j, cc, dc):
     case['ar'] = {'order': ar_order, 'style': style, 'hdr': hdr}
     case['open'] = 'filename' if r.random() < 0.25 else 'fileobj'
     case['opseed'] = r.randrange(10 ** 6)
+    # line-boundary look-alikes in control values; drawn last so that the rest of the description does not move
+    k = r.random()
+    if k < 0.18:
+        inject_brk(r, case['fields'], prefer_last=not case['ctl_final_nl'])
+    elif k < 0.22:
+        inject_brk(r, case['fields'], tight=True, prefer_last=not case['ctl_final_nl'])
     return case
 
 
@@ -684,9 +821,19 @@ def check_pkg(ctx, case, stats):
         return out
 
     files = model['files']
+    scan = brk_scan(case['fields'])
+    places = set(s[3] for s in scan)
+    # 'judged': every look-alike character is directly followed by a blank; 'tight': some are not (ValueError out
+    # of debcontrol() tolerated); 'edge': outside the domain (never generated; hand-written / replayed cases only)
+    brk = ('edge' if 'edge' in places else 'tight' if 'tight' in places else 'judged') if scan else None
+    sfx = '/value-with-non-LF-line-boundary-character' if brk else ''
+    if brk:
+        count('brk:pkg:' + brk)
+    control_text_want = model['control_raw'].decode('utf-8')
     ops = [('control',), ('scripts',), ('md5', None), ('md5', 'utf-8')]
     for sp in spellings('control'):
         ops.append(('ctlraw', sp))
+        ops.append(('ctltext', sp))
     for i in range(len(files)):
         for sp in spellings(files[i][0]):
             ops.append(('has', i, sp))
@@ -715,13 +862,30 @@ def check_pkg(ctx, case, stats):
         try:
             if kind == 'control':
                 mon('M.query')
-                got = deb.debcontrol()
+                if brk == 'edge':
+                    count('brk:out-of-domain:debcontrol-not-compared')
+                    continue
+                if brk:
+                    mon('M.brk.fields')
+                try:
+                    got = deb.debcontrol()
+                except ValueError:
+                    if brk != 'tight':
+                        raise
+                    # the unchanged tree's own validator (str.splitlines() in Deb822.validate_input) refuses the
+                    # value while the paragraph is being built: tolerated for tight placements, never demanded
+                    count('brk:tight:debcontrol-raised-ValueError')
+                    continue
+                if brk == 'tight':
+                    count('brk:tight:debcontrol-returned')
                 pairs = [(k, got[k]) for k in got.keys()]
                 if pairs != model['fields']:
                     diff = [(a, b) for a, b in zip(pairs, model['fields']) if a != b][:2]
-                    out.add('debcontrol-differs-from-packed-fields',
+                    out.add('debcontrol-differs-from-packed-fields' + sfx,
                             'debcontrol() gave %d fields, packed %d; first differences (got, packed): %r; got keys %r'
                             % (len(pairs), len(model['fields']), diff, list(got.keys())))
+                elif brk:
+                    count('brk:fields-verbatim')
             elif kind == 'scripts':
                 mon('M.query')
                 got = deb.scripts()
@@ -746,9 +910,30 @@ def check_pkg(ctx, case, stats):
                 spk, sp = op[1]
                 if not deb.control.has_file(sp):
                     out.add('control-member-not-found/%s-spelling' % spk, 'control.has_file(%r) is False' % sp)
+                if brk:
+                    mon('M.brk.bytes')
                 got = deb.control.get_content(sp)
                 if got != model['control_raw']:
-                    out.add('control-content-differs', 'control.get_content(%r) -> %s, packed %s' % (sp, brief(got), brief(model['control_raw'])))
+                    out.add('control-content-differs' + sfx, 'control.get_content(%r) -> %s, packed %s' % (sp, brief(got), brief(model['control_raw'])))
+            elif kind == 'ctltext':
+                mon('M.query')
+                spk, sp = op[1]
+                if brk:
+                    mon('M.brk.text')
+                how = rr.randrange(3)
+                if how == 0:
+                    got = deb.control.get_content(sp, encoding='utf-8')
+                else:
+                    f = deb.control.get_file(sp, encoding='utf-8')
+                    got = f.read() if how == 1 else ''.join(f.readlines())
+                    f.close()
+                count('ctltext:' + ['get_content', 'get_file.read', 'get_file.readlines-joined'][how])
+                if got != control_text_want:
+                    out.add('control-text-differs' + sfx,
+                            'control text of %r (encoding=utf-8, via %s) -> %d chars %r, packed %d chars %r' % (
+                                sp, ['get_content', 'get_file().read()', "''.join(get_file().readlines())"][how],
+                                len(got) if got is not None else -1, got if got is None else got[:120],
+                                len(control_text_want), control_text_want[:120]))
             elif kind == 'has':
                 mon('M.query')
                 spk, sp = op[2]
@@ -795,8 +980,9 @@ def check_pkg(ctx, case, stats):
                     out.add('spellings-answered-differently', 'get_content over spellings of non-file %r -> %r' % (name, res))
         except Exception as e:
             what = {'control': 'debcontrol', 'scripts': 'scripts', 'md5': 'md5sums', 'ctlraw': 'control-query',
-                    'has': 'data-has_file', 'content': 'data-content-query'}.get(kind, kind)
-            out.add('%s-raises/%s' % (what, type(e).__name__), '%r raised %r' % (op, e))
+                    'ctltext': 'control-text-query', 'has': 'data-has_file', 'content': 'data-content-query'}.get(kind, kind)
+            out.add('%s-raises/%s%s' % (what, type(e).__name__, sfx if kind in ('control', 'ctlraw', 'ctltext') else ''),
+                    '%r raised %r' % (op, e))
     try:
         deb.close()
     except Exception as e:
@@ -919,6 +1105,11 @@ def _shrink_candidates(case):
         yield variant(fields=[['Package', 'p']])
         for i in range(len(case['fields'])):
             yield variant(fields=[case['fields'][i]])
+    for k, v in case['fields']:
+        if '\n' in v and any(c in BRK for c in v):
+            for li, line in enumerate(v.split('\n')):
+                if any(c in BRK for c in line):        # the line with the look-alike character alone
+                    yield variant(fields=[[k, split_line(line, li)[1]]])
     if case.get('tarfmt', 'gnu') != 'gnu':
         yield variant(tarfmt='gnu')
     if case.get('open') == 'filename':
@@ -1023,6 +1214,17 @@ def run_case(ctx, case):
                 ctx.count('name:non-ascii')
         ctx.count('files=%d' % len(case['files']))
         ctx.count('scripts=%d' % len(case['scripts']))
+        scan = brk_scan(case['fields'])
+        if scan:
+            ctx.count('brk:pkg')
+            if not case.get('ctl_final_nl', True) and any(
+                    fi == len(case['fields']) - 1 and li == case['fields'][fi][1].count('\n') for fi, li, _, _ in scan):
+                ctx.count('brk:line:last-without-final-newline')
+            for fi, li, name, place in scan:
+                ctx.count('brk:char:' + name)
+                ctx.count('brk:place:' + place)
+                ctx.count('brk:line:' + ('continuation' if li else
+                                         'first-of-multi-line' if '\n' in case['fields'][fi][1] else 'single-line'))
         findings = check_pkg(ctx, case, ctx)
         if case['files'] and case['scripts']:
             ctx.nontrivial(case)
